@@ -346,6 +346,12 @@ class _RawConfigParser(configparser.RawConfigParser):
     super(_RawConfigParser, self).__init__(dict_type = _ConfigParserDict, default_section = "__no_default_section__", interpolation = _VariablesInterpolation())
     self._sections = collections.OrderedDict()
 
+  def get(self, section, option, **kwargs):
+    try:
+      return super(_RawConfigParser, self).get(section, option, **kwargs)
+    except configparser.InterpolationError as e:
+      raise ConfigParserException("Problem with place-holder in [{}] '{}': {}".format(section, option, e.message))
+
   def optionxform(self, option):
     # Remove all whitespace (as _ConfigParserDict does for its keys) so that the duplicate
     # checks made whilst reading a file see 'A-B' and 'A - B' as the same option.
